@@ -524,6 +524,58 @@ def utils_facts(u):
             facts[fn['name']] = d
     return facts
 
+def memset_scales(u):
+    """for every 'other' function: the pointee type of the pointer operand in memset(ptr + n, ...) / memcpy destinations,
+    i.e. the factor C pointer arithmetic applies to n"""
+    out = {}
+    for fn in u.funcs:
+        b = body(fn)
+        if not b:
+            continue
+        for n in walk(b):
+            if n.get('kind') == 'CallExpr' and callee_name(n) == 'memset':
+                a = kids(n)[1:]
+                if not a:
+                    continue
+                core = strip_expr(a[0])
+                if core.get('kind') == 'BinaryOperator' and core.get('opcode') == '+':
+                    l = kids(core)[0]
+                    t = l.get('type', {}).get('qualType', '')
+                    out.setdefault(fn['name'], []).append(t)
+    return out
+
+def other_facts(u):
+    """small structural facts about hand-modelled functions: return type width, local variable widths,
+    which local variables are assigned inside loops"""
+    out = {}
+    for fn in u.funcs:
+        b = body(fn)
+        if not b:
+            continue
+        rw = u.tenv.width(ret_type(fn))
+        d = {'ret_bits': rw[0] if rw and not rw[1] else 0, 'locals': {}, 'loop_assigned': []}
+        for n in walk(b):
+            if n.get('kind') == 'VarDecl':
+                w = u.tenv.width(n['type'])
+                if w:
+                    d['locals'][n['name']] = [w[0], bool(w[1])]
+        def assigned(node, acc):
+            for n in walk(node):
+                if n.get('kind') in ('CompoundAssignOperator',) or (n.get('kind') == 'BinaryOperator' and n.get('opcode') == '=') or \
+                   (n.get('kind') == 'UnaryOperator' and n.get('opcode') in ('++', '--')):
+                    l = strip_expr(kids(n)[0])
+                    if l.get('kind') == 'DeclRefExpr':
+                        acc.add(l['referencedDecl'].get('name'))
+        acc = set()
+        for n in walk(b):
+            if n.get('kind') in ('ForStmt', 'WhileStmt', 'DoStmt'):
+                ks = kids(n)
+                if ks:
+                    assigned(ks[-1], acc)      # loop body
+        d['loop_assigned'] = sorted(x for x in acc if x)
+        out[fn['name']] = d
+    return out
+
 def analyse_unit(path, macros, hl, workdir):
     u = Unit(path)
     funcs = [classify(u, fn) for fn in u.funcs]
@@ -564,6 +616,8 @@ def analyse_unit(path, macros, hl, workdir):
            'offsetof': probe['offsetof']}
     if os.path.basename(path) == 'Utils.c':
         res['utils'] = utils_facts(u)
+    res['memset_ptr_types'] = memset_scales(u)
+    res['other_facts'] = other_facts(u)
     return res
 
 def generate(workdir):
